@@ -51,6 +51,8 @@ class _Visitor(ast.NodeVisitor):
         self.taint = {}         # local name -> {(guarded field, critical section id it was read in)}
         self.stale_writes = []  # (field, lineno, read block, write block)
         self.foreign = []       # (attr, lineno, kind, ok, lock)
+        self.reads_in = {}      # guarded field -> [(critical section id, enclosing ids, lineno)] where it was read
+        self.split_claims = []  # (field, removal lineno, earlier read lineno)
 
     # ---- read-modify-write of a guarded field must happen inside ONE critical section
     def _taint_of(self, expr):
@@ -114,7 +116,24 @@ class _Visitor(ast.NodeVisitor):
         for it in node.items:
             self.visit(it.context_expr)
 
+    REMOVERS = {"pop", "remove", "discard", "popitem", "__delitem__"}
+
+    def _note_read(self, fld, lineno):
+        self.reads_in.setdefault(fld, []).append((self.block[-1], tuple(self.block), lineno))
+
+    def _note_removal(self, fld, lineno):
+        cur = self.block[-1]
+        if cur == 0:
+            return
+        for blk, chain, line in self.reads_in.get(fld, []):
+            if blk != 0 and blk != cur and blk not in self.block and cur not in chain:
+                self.split_claims.append((fld, lineno, line))
+                return
+
     def visit_Attribute(self, node):
+        if isinstance(node.value, ast.Name) and node.value.id == "self" and node.attr in self.spec.guarded \
+                and isinstance(node.ctx, ast.Load):
+            self._note_read(node.attr, node.lineno)
         if node.attr in self.spec.guarded_foreign and not (isinstance(node.value, ast.Name) and node.value.id == "self"):
             lock = self.spec.guarded_foreign[node.attr]
             kind = "write" if isinstance(node.ctx, (ast.Store, ast.Del)) else "read"
@@ -143,6 +162,8 @@ class _Visitor(ast.NodeVisitor):
         if isinstance(node.ctx, (ast.Store, ast.Del)) and isinstance(node.value, ast.Attribute) \
                 and isinstance(node.value.value, ast.Name) and node.value.value.id == "self" and node.value.attr in self.spec.guarded:
             self._stale_mutation(node.value.attr, [node.slice], node.lineno)
+            if isinstance(node.ctx, ast.Del):
+                self._note_removal(node.value.attr, node.lineno)
         self.generic_visit(node)
 
     def visit_Call(self, node):
@@ -158,6 +179,8 @@ class _Visitor(ast.NodeVisitor):
         if isinstance(f, ast.Attribute) and f.attr in self.MUTATORS and isinstance(f.value, ast.Attribute) \
                 and isinstance(f.value.value, ast.Name) and f.value.value.id == "self" and f.value.attr in self.spec.guarded:
             self._stale_mutation(f.value.attr, list(node.args) + [k.value for k in node.keywords], node.lineno)
+            if f.attr in self.REMOVERS:
+                self._note_removal(f.value.attr, node.lineno)
         if isinstance(f, ast.Attribute) and isinstance(f.value, ast.Name) and f.value.id == "self":
             self.calls_held.append((f.attr, tuple(self.held), node.lineno))
         if isinstance(f, ast.Attribute) and f.attr in ("acquire", "release"):
@@ -221,6 +244,11 @@ def check(repo, spec: LockSpec):
             out.append({"name": f"{spec.cls_qual}.{mname}/guarded_by:{attr}@{kind}(foreign)", "line": line,
                         "status": "proved" if ok else "refuted", "kind": "ownership",
                         "detail": f"{kind} of <object>.{attr} at line {line} " + (f"under {lock}" if ok else f"is NOT inside `with self.{lock}:`")})
+        for fld, line, rline in v.split_claims:
+            out.append({"name": f"{spec.cls_qual}.{mname}/claim-and-remove-in-one-critical-section:{fld}", "line": line,
+                        "status": "refuted", "kind": "ownership",
+                        "detail": f"an entry of self.{fld} is removed at line {line} in a critical section separate from the one "
+                                  f"(line {rline}) that examined self.{fld}: another thread can claim or cancel the same entry in between"})
         for fld, line, rb, wb in v.stale_writes:
             out.append({"name": f"{spec.cls_qual}.{mname}/read-modify-write-in-one-critical-section:{fld}", "line": line,
                         "status": "refuted", "kind": "ownership",
@@ -286,3 +314,43 @@ def _cycle(graph):
             if r:
                 return r
     return None
+
+
+class IdentitySpec:
+    """a dataclass whose hash() serves as an identifier (e.g. the subscription id = hash(request)): every field has to
+    take part in == and in hash(), or two different values share an identifier"""
+    def __init__(self, cls_qual, props=(), note=""):
+        self.cls_qual = cls_qual
+        self.props = list(props)
+        self.guarded = {}
+        self.note = note
+        self.identity = True
+
+
+def check_identity(repo, spec):
+    ci = repo.class_by_qual(spec.cls_qual)
+    out = []
+    for node in ci.node.body:
+        if not isinstance(node, ast.AnnAssign) or not isinstance(node.target, ast.Name):
+            continue
+        fname = node.target.id
+        excluded = []
+        v = node.value
+        if isinstance(v, ast.Call) and (getattr(v.func, "id", None) == "field" or getattr(v.func, "attr", None) == "field"):
+            for kw in v.keywords:
+                if kw.arg in ("hash", "compare") and isinstance(kw.value, ast.Constant) and kw.value.value is False:
+                    excluded.append(kw.arg)
+        ok = not excluded
+        out.append({"name": f"{spec.cls_qual}/identifier-covers-field:{fname}", "line": node.lineno, "kind": "ownership",
+                    "status": "proved" if ok else "refuted",
+                    "detail": f"field {fname} takes part in == and hash()" if ok else
+                    f"field {fname} is declared with {', '.join(e + '=False' for e in excluded)}: two values differing only in {fname} share hash(), i.e. the identifier derived from it"})
+    decorated = [d for d in ci.node.decorator_list]
+    frozen_eq = any(isinstance(d, ast.Call) and any(k.arg == "frozen" and getattr(k.value, "value", None) is True for k in d.keywords)
+                    for d in decorated)
+    custom_hash = "__hash__" in ci.methods or "__eq__" in ci.methods
+    out.append({"name": f"{spec.cls_qual}/identifier-is-the-generated-dataclass-hash", "line": ci.node.lineno, "kind": "ownership",
+                "status": "proved" if (frozen_eq and not custom_hash) else "refuted",
+                "detail": "frozen dataclass with generated __eq__/__hash__ over all fields" if (frozen_eq and not custom_hash)
+                else "the class defines its own __eq__/__hash__ or is not a frozen dataclass: the identifier semantics are not the field-wise ones the contracts assume"})
+    return out
